@@ -24,7 +24,8 @@ class PcpReal:
         sanf = ["-fsanitize=address,undefined", "-fno-sanitize=signed-integer-overflow", "-fwrapv", "-fno-sanitize-recover=all",
                 "-fno-omit-frame-pointer"] if san else []
         self.exe = os.path.join(d, "bin", "pdsh")
-        rc, out = vlib.sh(["gcc"] + inc + sanf + [cfg] + realeng.SRCS + ["-rdynamic", "-ldl", "-lpthread", "-o", self.exe])
+        rc, out = vlib.sh(["gcc"] + inc + sanf + [cfg, os.path.join(vlib.VERIF, "harness", "fake_blksize.c")] + realeng.SRCS +
+                          ["-Wl,--wrap=fstat", "-rdynamic", "-ldl", "-lpthread", "-o", self.exe])
         if rc:
             raise vlib.BuildError("real pdsh build:\n" + out[-4000:])
         for link in ("pdcp", "rpdcp"):
